@@ -2,7 +2,7 @@
 
 use crate::common::*;
 use crate::sim::{self, Monitor};
-use crate::{catchup, fd, hostile, kv, listen, mtu, pairs, select, srv, wirecheck};
+use crate::{catchup, fd, fuzzers, hostile, kv, listen, mtu, pairs, select, srv, wirecheck};
 
 pub fn run_property(ctx: &Ctx) -> Option<Report> {
     let r = match ctx.prop.as_str() {
@@ -49,6 +49,11 @@ pub fn run_property(ctx: &Ctx) -> Option<Report> {
             );
             r.assume("zstd is trusted as a codec; in canonical mode the real encoder must reproduce the independent encoder's bytes");
             wirecheck::run(ctx, &mut r);
+            r.push(fuzzers::corpus_replay(ctx, &["wire_decode", "wire_roundtrip"], ctx.tier.pick(400, 4000)));
+            if ctx.tier == Tier::Thorough {
+                r.push(fuzzers::campaign(ctx, "wire_decode", (3_000_000f64 * ctx.scale) as u64, 65_507));
+                r.push(fuzzers::campaign(ctx, "wire_roundtrip", (400_000f64 * ctx.scale) as u64, 4_096));
+            }
             r
         }
         "C01" | "C02" | "C03" | "C05" | "C12" | "C13" | "C16" => {
@@ -98,7 +103,7 @@ pub fn run_property(ctx: &Ctx) -> Option<Report> {
         }
         "C10" => {
             let mut r = Report::new(
-                "cases = (failure-detector configuration: phi in [0.5,16], window 1..1000, initial/max interval log-uniform over 10 ms..100 s; history of fresh heartbeat arrivals through SYN digests and liveness evaluations, with inter-arrival times from 0 to beyond max_interval, long silences, and evaluations placed at last_fresh + T(1 +- 1e-6) and just past the deadline) on the virtual clock;                  non-trivial = the sampling window wrapped around at least once or the member alternated dead -> live -> dead; distinct = by case",
+                "cases = (failure-detector configuration: phi in [0.5,16], window 1..1000, initial/max interval log-uniform over 10 ms..100 s; history of fresh heartbeat arrivals and of stale (equal / lower, relayed) heartbeats through SYN digests and liveness evaluations, with inter-arrival times from 0 to beyond max_interval, long silences, and evaluations placed at last_fresh + T(1 +- 1e-6) and just past the deadline) on the virtual clock;                  non-trivial = the sampling window wrapped around at least once or the member alternated dead -> live -> dead; distinct = by case",
             );
             r.assume("tolerance: evaluations within T*1e-9 + 1 us after the deadline are not asserted (f64 arithmetic)");
             r.assume("liveness evidence rule used: live implies two strictly increasing heartbeat observations at most max_interval apart, the later one after the last evaluation that classified the member dead");
@@ -127,6 +132,11 @@ pub fn run_property(ctx: &Ctx) -> Option<Report> {
             );
             r.assume("id universe of 48 short ids so that the victim's own digest always fits a datagram (the statement's precondition); decompression bombs (memory/time exhaustion) are outside the statement");
             hostile::run(ctx, &mut r);
+            r.push(fuzzers::corpus_replay(ctx, &["hostile_process", "wire_decode"], ctx.tier.pick(400, 4000)));
+            if ctx.tier == Tier::Thorough {
+                r.push(fuzzers::campaign(ctx, "hostile_process", (1_500_000f64 * ctx.scale) as u64, 65_507));
+                r.push(fuzzers::campaign(ctx, "wire_decode", (2_000_000f64 * ctx.scale) as u64, 65_507));
+            }
             r
         }
         "C19" => {
